@@ -398,6 +398,8 @@ raise ValueError."""
             commonparts = []
             for aword, bword in zip(a.split('_'), b.split('_')):
                 if aword != bword:
+                    if not commonparts:
+                        return ''
                     return '_'.join(commonparts) + '_'
                 commonparts.append(aword)
             return min(a, b)
